@@ -3,6 +3,8 @@
    (which uses Cbor/ParseSafety.v for totality). *)
 From SF Require Import Base.Prelude Core.Events Cbor.Parse Cbor.ChunkProofs Cbor.ChunkTotalProofs Json.Parse.
 From SF Require Json.ChunkProofs.
+From SF Require Import Ubjson.Parse.
+From SF Require Ubjson.ChunkProofs.
 
 (* CBOR parser model.  For ANY two ways of cutting the same byte string into a sequence
    of writes (every subset of cut positions, single bytes, empty writes), each followed by
@@ -46,6 +48,19 @@ Theorem C02_json_entry : forall (pf : bytes -> option Z) vfail cs,
   SF.Json.ChunkProofs.same_jobs (jrun_parse pf vfail (concat cs)) (jrun_chunks pf vfail cs).
 Proof. exact SF.Json.ChunkProofs.C02_json_entry. Qed.
 Print Assumptions C02_json_entry.
+
+(* UBJSON parser model, every visitor-failure index, ANY two chunkings of the same bytes and
+   Parse vs Write*+end: whenever both runs return (they always do unless the recorded
+   finding F2 exhausts the fuel, see C03) the events and the error class are identical. *)
+Theorem C02_ubj_chunks : forall vfail cs1 cs2 r1 r2, concat cs1 = concat cs2 ->
+  urun_chunks vfail cs1 = Ok r1 -> urun_chunks vfail cs2 = Ok r2 -> fst r1 = fst r2.
+Proof. exact SF.Ubjson.ChunkProofs.C02_ubj_chunks_strong. Qed.
+Print Assumptions C02_ubj_chunks.
+
+Theorem C02_ubj_entry : forall vfail cs r1 r2,
+  urun_parse vfail (concat cs) = Ok r1 -> urun_chunks vfail cs = Ok r2 -> fst r1 = fst r2.
+Proof. exact SF.Ubjson.ChunkProofs.C02_ubj_entry_strong. Qed.
+Print Assumptions C02_ubj_entry.
 
 Example C02_cbor_nonvacuous :
   run_chunks None [[130]; []; [24]; [200; 97]; [120]] = run_chunks None [[130; 24; 200; 97; 120]] /\
